@@ -99,6 +99,15 @@ AttrRun(s, st, html, chk, fuel) ==
     ELSE <<r.item>> \o AttrRun(s, r.st, html, chk, fuel - 1)
 AttrAll(s, pos, html, chk) == AttrRun(s, AInit(pos), html, chk, Len(s) + 2)
 
+\* the duplicate check toggled BETWEEN calls (Attributes::with_checks in the middle of an iteration): keys are recorded during
+\* the checked phases only, and what was recorded survives an unchecked phase.  pat = sequence of BOOLEAN, used cyclically
+RECURSIVE AttrRunPat(_, _, _, _, _, _)
+AttrRunPat(s, st, html, pat, i, fuel) ==
+    LET chk == pat[((i - 1) % Len(pat)) + 1]
+        r == AttrStep(s, st, html, chk) IN
+    IF r.item.k = "None" \/ fuel = 0 THEN <<>> ELSE <<r.item>> \o AttrRunPat(s, r.st, html, pat, i + 1, fuel - 1)
+AttrAllPat(s, pos, html, pat) == AttrRunPat(s, AInit(pos), html, pat, 1, Len(s) + 2)
+
 \* the state in which the iteration ends (for "stays ended")
 RECURSIVE AttrEnd(_, _, _, _, _)
 AttrEnd(s, st, html, chk, fuel) ==
